@@ -616,9 +616,9 @@ func c01Input(r *mc.R, st *c01Stats, part string, in []byte, only []reflect.Type
 
 var c01Alphabet = []byte{0x00, 0x01, 0x7f, 0x80, 0x81, 0x82, 0xb7, 0xb8, 0xb9, 0xbf, 0xc0, 0xc1, 0xc2, 0xc3, 0xf7, 0xf8, 0xf9, 0xff}
 
-// c01TagAlphabet (part a) drops b9/bf/f9: multi-byte length tags can never be completed inside a 6-byte string, the
-// header sweep (b) and the mutations (d, full alphabet) exercise them instead.
-var c01TagAlphabet = []byte{0x00, 0x01, 0x7f, 0x80, 0x81, 0x82, 0xb7, 0xb8, 0xc0, 0xc1, 0xc2, 0xc3, 0xf7, 0xf8, 0xff}
+// c01TagAlphabet (part a) drops b7/f7 (55-byte items) and b9/bf/f9 (multi-byte lengths): such items can never be
+// completed inside a 6-byte string; the header sweep (b) and the mutations (d, full alphabet) exercise them instead.
+var c01TagAlphabet = []byte{0x00, 0x01, 0x7f, 0x80, 0x81, 0x82, 0xb8, 0xc0, 0xc1, 0xc2, 0xc3, 0xf8, 0xff}
 
 var c01UintAlphabet = []uint64{0, 1, 127, 128, 255, 256, 65535, 65536, 1<<32 - 1, 1 << 32, 1<<64 - 1}
 
@@ -854,7 +854,7 @@ func TestVerif_C01(t *testing.T) {
 		r.Rule("case = one input byte string, checked against every target type (typed decode accept/reject + value + bit-for-bit " +
 			"re-encoding vs the spec reference) and through Split/SplitString/SplitList/SplitUint64/CountValues/SplitListValues vs " +
 			"Stream vs reference. Inputs: (a) ALL byte strings of length<=full_len over 256 values and all strings of length<=alpha_len " +
-			"over a 15-byte RLP tag alphabet; (b) header sweep: canonical and every non-canonical header for payload lengths at the " +
+			"over a 13-byte RLP tag alphabet; (b) header sweep: canonical and every non-canonical header for payload lengths at the " +
 			"55/56, 255/256, 65535/65536 boundaries; (c) every value of the bounded value sets of each type (encode vs reference " +
 			"encoder, decode back); (d) every single-edit mutation of every encoding from (c), decoded as the value's own type, " +
 			"interface{} and RawValue; (e) AppendUint64/IntSize for all x<2^17 and all 2^k-1,2^k,2^k+1. " +
